@@ -436,6 +436,16 @@ class Exec:
             conv = '<%s as From<%s>>::from' % (mm.group(2).strip(), mm.group(1).strip())
             f = self.mir.resolve(conv)
             if f is not None: return self.run_fn(f, vals, env, pc, cont)
+        mm = re.match(r'<&+(\w+) as PartialEq(?:<.*>)?>::(eq|ne)$', callee)
+        if mm and self.summary_key(callee) is None:
+            f = self.mir.resolve('<%s as PartialEq>::eq' % mm.group(1))
+            if f is not None:
+                def one_hop(v):
+                    try: x = get_at(env[v.local], v.path)
+                    except Exception: return v
+                    return x if isinstance(x, Ref) else v
+                neg = mm.group(2) == 'ne'
+                return self.run_fn(f, [one_hop(v) if isinstance(v, Ref) else v for v in vals], env, pc, lambda r, e, p: cont(Not(r) if neg and not isinstance(r, Opaque) else r, e, p))
         key = self.summary_key(callee)
         if key is not None:
             self.used_summaries.add(key)
